@@ -172,6 +172,9 @@ class Gen:
             for k in keys:
                 if maybe(rng, 0.45):
                     sn[k] = ga.MARKUP_USER_SNIPPETS[k]
+                    if k in ('foo', 'ali', 'txt', 'imp') and maybe(rng, 0.5):
+                        # the same snippet name means something else in this config
+                        sn[k] = {'foo': 'section.foo-%s[bar=%s]', 'ali': 'foo.via-%s%s', 'txt': '{other %s text%s}', 'imp': '[data-%s=%s]'}[k] % (cid, cid)
             if not sw['lorem']:
                 sn.pop('lor', None)
         if sw['poison'] and 'F2' in sw['fault_kinds']:
@@ -225,6 +228,10 @@ class Gen:
             for k in sorted(ga.STYLESHEET_USER_SNIPPETS):
                 if maybe(rng, 0.6):
                     table[k] = ga.STYLESHEET_USER_SNIPPETS[k]
+                    if k in ('kmar', 'zidx', 'klh') and maybe(rng, 0.4):
+                        # the same snippet name means something else in this table
+                        table[k] = {'kmar': 'margin:%d %d', 'zidx': 'z-index:%d|%d', 'klh': 'line-height:%d.%d'}[k] % (
+                            rng.randint(2, 9), rng.randint(2, 9))
         if sw['poison'] and 'F2' in sw['fault_kinds'] and maybe(rng, 0.3):
             k = pick(rng, sorted(ga.STYLESHEET_POISON_SNIPPETS))
             table[k] = ga.STYLESHEET_POISON_SNIPPETS[k]
